@@ -167,6 +167,33 @@ Proof.
   - apply StronglySorted_inv in H as [Hs _]. apply IH; assumption.
 Qed.
 
+(* stability of the event sort: events that compare equal keep their input order *)
+Definition ev_equiv (sf : bool) (k x : event) : bool :=
+  negb (ev_lt sf k x) && negb (ev_lt sf x k).
+
+Lemma insert_filter sf k x l :
+  filter (ev_equiv sf k) (insert_ev sf x l) =
+  if ev_equiv sf k x then x :: filter (ev_equiv sf k) l else filter (ev_equiv sf k) l.
+Proof.
+  induction l as [|y l IH].
+  - cbn. destruct (ev_equiv sf k x); reflexivity.
+  - cbn [insert_ev]. destruct (ev_lt sf y x) eqn:E.
+    + cbn [filter]. rewrite IH.
+      destruct (ev_equiv sf k x) eqn:Ex, (ev_equiv sf k y) eqn:Ey; try reflexivity.
+      exfalso. unfold ev_equiv, ev_lt in *.
+      destruct sf, (estart k), (estart x), (estart y); cbn in *; lia.
+    + cbn [filter]. destruct (ev_equiv sf k x); reflexivity.
+Qed.
+
+Theorem sort_stable sf k l :
+  filter (ev_equiv sf k) (sort_events sf l) = filter (ev_equiv sf k) l.
+Proof.
+  induction l as [|x l IH]; [reflexivity|].
+  change (sort_events sf (x :: l)) with (insert_ev sf x (sort_events sf l)).
+  rewrite insert_filter, IH. reflexivity.
+Qed.
+
+
 (* ------------------------------------------------------------------ events of an edge *)
 Lemma norm_lat_fst a : lat (fst (norm_edge a)) = lat_lo a.
 Proof.
